@@ -410,16 +410,31 @@ func projectRecursive(at *AttributeExpr, vat *NamedAttributeExpr, view string, s
 				view = DefaultView
 			}
 		}
-		if att, ok := seen[hashAttrAndView(at, view)]; ok {
-			return projectedAttribute(at, att), nil
+		key := hashAttrAndView(at, view)
+		if att, ok := seen[key]; ok {
+			pat := projectedAttribute(at, att)
+			if prt, ok := att.Type.(*ResultTypeExpr); ok && prt.Identifier == rt.Identifier {
+				// The projection is still being computed (recursive result
+				// type): record the attribute so that its type is set once
+				// the projected type is known.
+				seen[fmt.Sprintf("%s::pending::%d", key, len(seen))] = pat
+			}
+			return pat, nil
 		}
 		at = DupAtt(at)
-		seen[hashAttrAndView(at, view)] = at
+		seen[key] = at
 		pr, err := project(rt, view, seen)
 		if err != nil {
 			return nil, fmt.Errorf("view %#v on field %#v cannot be computed: %w", view, vat.Name, err)
 		}
 		at.Type = pr
+		pending := key + "::pending::"
+		for k, pat := range seen {
+			if strings.HasPrefix(k, pending) {
+				pat.Type = pr
+				delete(seen, k)
+			}
+		}
 		return at, nil
 	}
 
@@ -511,14 +526,8 @@ func (v *ViewExpr) EvalName() string {
 // projectedAttribute returns the projection of at given the attribute
 // recorded for the same type and view: a copy of at - which may have a
 // different description, metadata, validations etc. than the recorded
-// attribute - that uses the projected type. It returns the recorded attribute
-// itself if its projection is still being computed (recursive result types).
+// attribute - that uses the projected type.
 func projectedAttribute(at, projected *AttributeExpr) *AttributeExpr {
-	if rt, ok := at.Type.(*ResultTypeExpr); ok {
-		if prt, ok := projected.Type.(*ResultTypeExpr); ok && prt.Identifier == rt.Identifier {
-			return projected
-		}
-	}
 	dup := *at
 	dup.Type = projected.Type
 	if at.Validation != nil {
